@@ -958,6 +958,21 @@ func c19Distance(x *mc.Exec) {
 			}
 		}
 	}
+	// the extremes of the 256-bit distance: complements differ in all 256 bits
+	for _, b := range set {
+		X := imagehash.PHash256{a, b, ^a, a ^ b}
+		Y := imagehash.PHash256{^a, ^b, a, ^(a ^ b)}
+		if X.Distance(Y) != 256 || Y.Distance(X) != 256 {
+			fs.add("PHash256.Distance of complements != 256", fmt.Sprintf("%v %v -> %d", X, Y, X.Distance(Y)))
+		}
+		Z := imagehash.PHash256{^a, ^b, a, ^(a ^ b) ^ 1}
+		if X.Distance(Z) != 255 {
+			fs.add("PHash256.Distance != popcount(xor)", fmt.Sprintf("%v %v -> %d want 255", X, Z, X.Distance(Z)))
+		}
+	}
+	if imagehash.PHash64(a).Distance(imagehash.PHash64(^a)) != 64 {
+		fs.add("PHash64.Distance of complements != 64", fmt.Sprintf("%#x", a))
+	}
 	if imagehash.PHash64(a).Distance(imagehash.PHash64(a)) != 0 || (imagehash.PHash256{a, a, 1, 2}).Distance(imagehash.PHash256{a, a, 1, 2}) != 0 {
 		fs.add("d(a,a) != 0", fmt.Sprintf("%#x", a))
 	}
